@@ -42,6 +42,8 @@ var uninterp = map[string]uninterpFn{
 	"enc_at":       {[]string{"Any", "Int"}, "Int", types.Typ[types.Int]},
 	"fill_of":      {[]string{"Any", "Int"}, "Any", types.NewInterfaceType(nil, nil)},
 	"list_off":     {[]string{"Any", "Int"}, "Int", types.Typ[types.Int]},
+	"str_unquote":  {[]string{"Str"}, "Str", types.Typ[types.String]},
+	"unquote_ok":   {[]string{"Str"}, "Bool", types.Typ[types.Bool]},
 	"has_space_rune": {[]string{"Str"}, "Bool", types.Typ[types.Bool]},
 	"space_wit":    {[]string{"Str"}, "Int", types.Typ[types.Int]},
 	"rune_at":      {[]string{"Str", "Int"}, "Int", types.Typ[types.Int]},
